@@ -42,7 +42,7 @@ def run(ctx):
         else:
             # single / double precision samples with events sitting exactly on the limits 0 and R-1, linear gains that
             # are not powers of two and log amplifiers (the law must be evaluated as for the limits: in double precision)
-            spec = zoo.float_spec(rng, n=int(rng.integers(12, 60)), d=D, negatives=rng.random() < 0.3,
+            spec = zoo.float_spec(rng, n=int(rng.integers(12, 60)), d=D, negatives=rng.random() < 0.5,
                                   dt='F' if rng.random() < 0.7 else 'D')
             R = int(rng.choice([262144, 1024, 1000, 65536]))
             spec['ranges'] = [R] * D
@@ -77,6 +77,17 @@ def run(ctx):
         kk = int(rng.integers(1, k + 1))
         mpos = pos[:kk]
         crv = [zoo.make_curve(*p) for p in zoo.power_curves(rng, kk)]
+        if spec['datatype'] in ('F', 'D') and bool(np.any(np.asarray(rfi)[:, mpos] < 0)) and rng.random() < 0.7:
+            # a user's curve in the bead-model form e^(m log x + b), defined for positive values only: an event below zero
+            # (outside the lower limit before the conversion) has no value after it (NaN) and is outside then too
+            def positive_only(m, b):
+                def sc(x):
+                    with np.errstate(all='ignore'):
+                        return np.exp(m * np.log(x) + b)
+                sc.params = (m, b, 'positive-only')
+                return sc
+            crv = [positive_only(*c.params) for c in crv]
+            ctx.counters['chk:commute:positive-only-curve'] += 1
         mchans = [s.channels[p] if rng.random() < 0.45 else (p if rng.random() < 0.65 else p - D) for p in mpos]
         mef = F.transform.to_mef(rfi, mchans if rng.random() < 0.7 else None, crv, mchans)
         m2 = F.gate.high_low(mef, gate_ch, full_output=True).mask
